@@ -30,6 +30,15 @@ func (e *Engine) Evaluate(documents []*gedcom.Document) (result interface{}, err
 		}
 	}()
 
+	// The Document variables below are only part of this evaluation. Without
+	// putting the statements back an engine that is evaluated again would keep
+	// the variables (and documents) of every earlier evaluation: "?" listed
+	// Document1 once for each of them.
+	statements := e.Statements
+	defer func() {
+		e.Statements = statements
+	}()
+
 	// Before we begin we will setup the Document variables. Each document, in
 	// order will be given Document1, Document2, ...
 	for i, document := range documents {
